@@ -2,11 +2,39 @@
 fischer_burmeister / fischer_burmeister_jac_l are vmapped over the constraints in the source, so the scalar form is the
 code itself.  The nested `f` of ConstrainedObjective.create_augmented_lagrangian is translated for ONE constraint and ONE
 unknown with the objective and the constraint as oracles (closure variables): `al_value obj con x p l k`
-= obj x p + penalty(con x p, l, k); with obj := 0 and con := (x |-> x) it IS the source's penalty expression."""
+= obj x p + penalty(con x p, l, k); with obj := 0 and con := (x |-> x) it IS the source's penalty expression.
+
+Module AlSolver: the three state-update statements of AlSolver.solve_sub_step, each extracted as a kernel of its own and read
+ELEMENTWISE (one constraint; the statements are vectorised numpy expressions without cross-component coupling except through
+len(ncpError), which becomes the scalar parameter `nconstr`):
+  sub_lam_update lam kappa c                     alObjective.lam = np.maximum(alObjective.lam-kappa*c, 0.0)
+  sub_poor_progress ncpError ncpErrorOld tdf tol nconstr
+                                                 poorProgress = ncpError > np.maximum(tdf * ncpErrorOld, 10 * tol / np.sqrt(len(ncpError)))
+  sub_kappa_update kappa poorProgress ps         alObjective.kappa = kappa.at[poorProgress].set(ps*kappa[poorProgress])
+The hand model of the outer loop (model/M_C04_AL.v) CALLS these generated definitions; the `np.any(poorProgress) and solverSuccess`
+guard, the sub-problem solver call and the evaluation order stay in the hand model (tied by the trace correspondence).
+Module BoundConstrainedObjective: the clipping of the initial multipliers in BoundConstrainedObjective.__init__."""
+_SUB = ['S'] * 7
 SPECS = [
     dict(name='ConstrainedObjective', file='optimism/ConstrainedObjective.py',
          funcs=[('fischer_burmeister', ['S', 'S', 'S']),
                 ('fischer_burmeister_jac_l', ['S', 'S', 'S']),
                 ('ConstrainedObjective.create_augmented_lagrangian.f', ['S', 'S', 'S', 'S'],
                  dict(coq_name='al_value', oracles=[('objective_func', 2, 1), ('constraint_func', 2, 1)]))]),
+    dict(name='AlSolver', file='optimism/AlSolver.py',
+         funcs=[('solve_sub_step', ['S', 'S', 'S'],
+                 dict(coq_name='sub_lam_update',
+                      extract=dict(target='alObjective.lam', index=0, count=1, params=['lam', 'kappa', 'c'],
+                                   attrs={'alObjective.lam': 'lam'}))),
+                ('solve_sub_step', ['S', 'S', 'NT(target_constraint_decrease_factor:S,tol:S)', 'S'],
+                 dict(coq_name='sub_poor_progress',
+                      extract=dict(target='poorProgress', index=0, count=1, params=['ncpError', 'ncpErrorOld', 'alSettings', 'nconstr'],
+                                   lens={'ncpError': 'nconstr'}))),
+                ('solve_sub_step', ['S', 'B', 'NT(penalty_scaling:S)'],
+                 dict(coq_name='sub_kappa_update',
+                      extract=dict(target='alObjective.kappa', index=0, count=1, params=['kappa', 'poorProgress', 'alSettings'],
+                                   attrs={'alObjective.kappa': 'kappa_new'}, masked_set=True)))]),
+    dict(name='BoundConstrainedObjective', file='optimism/BoundConstrainedObjective.py',
+         funcs=[('BoundConstrainedObjective.__init__', ['S'],
+                 dict(coq_name='bc_initial_multiplier', extract=dict(target='lam0', index=1, count=2, params=['lam0'])))]),
 ]
